@@ -388,15 +388,16 @@ def run(ctx):
         jobs.append(('job_delta', (pn,)))
     seqs = [('A', 0)] + [(s, k) for k in ks for s in ('B', 'C')]
     for seq, k in seqs:
-        for N in (3, 4, 5, 6, 7):
+        for N in (3, 4, 5, 6):
             jobs.append(('job_hist', (seq, k, N, 0, 4 * 3 ** (N - 2))))
+        for lo, hi in core.chunks(4 * 3 ** 5, 2):
+            jobs.append(('job_hist', (seq, k, 7, lo, hi)))
         for lo, hi in core.chunks(4 * 3 ** 6, 6):
             jobs.append(('job_hist', (seq, k, 8, lo, hi)))
     if ctx.thorough:
         for seq, k in [('A', 0), ('B', 0), ('C', 0)]:
             for lo, hi in core.chunks(4 * 3 ** 8, 16):
                 jobs.append(('job_hist', (seq, k, 10, lo, hi)))
-    # longest jobs first so the pool stays busy
     core.run_jobs(ctx, __name__, jobs)
     ctx.notes['menu_entries'] = ks
     ctx.notes['weights'] = W.tolist()
